@@ -233,6 +233,8 @@ def r02_2(ctx, prog, crate, rec):
                     r = rec.role(c)
                     if r == "sync_threads" and rec.sync_arg(c) is False:
                         continue
+                    if c.callee in ("std::mem::needs_drop", "std::mem::size_of"):
+                        continue  # type-level constants (intrinsics), no code
                     names.append(r or c.callee)
                 elif b.term(x)["k"] == "drop":
                     names.append("drop " + b.term(x)["ty"])
